@@ -253,6 +253,10 @@ def run(chk):
                                key="typeidpair|%s|%d" % (fn.name.replace("asmjit::", ""), npair))
     chk.floor(R7 + ":pairs", npair, 3)
 
+    from lib import snprintfrule, logorder, deabstract
+    snprintfrule.run(chk)
+    logorder.run(chk)
+    deabstract.run(chk)
     return chk.finish(
         level="other", exhaustive=False,
         explanation=("Name-table clauses of the formatters in /repo's current source: every x86 register name for every (type, id) equals the "
